@@ -20,7 +20,7 @@ class C08(Prop):
     LONG_BIAS = 0.1
     WEIGHTS = {"page": 2, "pages": 2, "links": 6, "batch": 5, "again": 1, "create": 3, "delete": 1, "addprefix": 2,
                "rmprefix": 1, "move": 1, "rule": 1, "unrule": 1, "reopen": 1}
-    QUICK = (14, 20)
+    QUICK = (40, 20)
     THOROUGH = (200, 40)
     ASSUMPTIONS = ["relational oracle: get_page_links + retrieve_webentity + prefix enumeration of the same index are the reference"]
 
